@@ -2,6 +2,7 @@ package sender
 
 import (
 	"encoding/binary"
+	"io"
 	"io/fs"
 	"time"
 
@@ -52,7 +53,7 @@ func newSenderTransfer(conn *vconn, seed int32, flags rsyncopts.VerifFlags) *Tra
 	return &Transfer{
 		Logger:   vlogger{},
 		Opts:     rsyncopts.VerifOptions(flags),
-		Env:      &rsyncos.Env{},
+		Env:      &rsyncos.Env{Stdout: io.Discard, Stderr: io.Discard},
 		Progress: progress.NewPrinter(nil, zeroTime),
 		Conn:     &rsyncwire.Conn{Reader: conn, Writer: conn},
 		Seed:     seed,
